@@ -69,15 +69,15 @@ type Recv struct {
 
 // NodeSpec scripts a node.
 type NodeSpec struct {
-	Pver        uint32 `json:"pver"`        // protocol version announced (>= 70012 understands sendheaders)
-	Cap         int    `json:"cap"`         // headers per reply (<= 2000)
-	CloseAt     int    `json:"closeAt"`     // close every connection when its k-th getheaders arrives (0 = never); before replying
-	CloseAfter  bool   `json:"closeAfter"`  // ... after replying instead
-	FaultConns  int    `json:"faultConns"`  // the close/stall script applies to the first FaultConns connections only (0 = first 2); later ones are served normally
-	StallAt     int    `json:"stallAt"`     // stop answering getheaders from the k-th one (0 = never)
-	MaxConns    int    `json:"maxConns"`    // accept at most this many simultaneous connections (0 = unlimited)
+	Pver        uint32 `json:"pver"`         // protocol version announced (>= 70012 understands sendheaders)
+	Cap         int    `json:"cap"`          // headers per reply (<= 2000)
+	CloseAt     int    `json:"closeAt"`      // close every connection when its k-th getheaders arrives (0 = never); before replying
+	CloseAfter  bool   `json:"closeAfter"`   // ... after replying instead
+	FaultConns  int    `json:"faultConns"`   // the close/stall script applies to the first FaultConns connections only (0 = first 2); later ones are served normally
+	StallAt     int    `json:"stallAt"`      // stop answering getheaders from the k-th one (0 = never)
+	MaxConns    int    `json:"maxConns"`     // accept at most this many simultaneous connections (0 = unlimited)
 	ReplyDelayM int    `json:"replyDelayMs"` // delay before each headers reply
-	Services    uint64 `json:"services"`    // 0 = SFNodeNetwork
+	Services    uint64 `json:"services"`     // 0 = SFNodeNetwork
 	// IgnoreStop: replies run up to the cap and do not end at the requested stop hash (a batch may then carry a
 	// checkpoint header in its middle)
 	IgnoreStop bool `json:"ignoreStop"`
@@ -557,8 +557,8 @@ func (n *Node) DropAll() {
 // Stats of the node.
 type Stats struct {
 	Accepted, Refused, Live, ClosedByRemote int
-	GetHeaders                            int
-	LastRecv                              time.Time
+	GetHeaders                              int
+	LastRecv                                time.Time
 }
 
 // Stat returns counters.
